@@ -243,6 +243,7 @@ def runDtcwt (op : String) (ps : List Int) (ts : List (Option (T α))) : Res α 
   /- specification ops (one column), raw un-reversed filters -/
   | "spec_colfilter", [], [some h, some x] => .ok [some (ofL1 (Spec.colfilter h.l1 x.l1))]
   | "spec_coldfilt", [hp], [some ha, some hb, some x] => .ok [some (ofL1 (Spec.coldfilt ha.l1 hb.l1 (boolOf hp) x.l1))]
+  | "spec_colifilt", [hp], [some ha, some hb, some x] => .ok [some (ofL1 (Spec.colifilt ha.l1 hb.l1 (boolOf hp) x.l1))]
   | "FWD_J1_bwd", [o, ri, sym, _skip], [some h0, some h1, some dl, dh] => resOfOpt do
       let bands ← (match dh with
         | none => some none
